@@ -59,4 +59,5 @@ registry! {
     c36::C36,
     c38::C38,
     c39::C39,
+    c40::C40,
 }
